@@ -80,7 +80,7 @@ class tt_dimscheck(Contract):
         if dims is not None:
             P = dims.shape[0]
             yield "len-equals-len-dims", S.eq(L, P)
-            gh = S.ctx.ghosts.get("argsort")
+            gh = S.body_ghosts.get("argsort")
             if gh:
                 p_, pinv_ = gh[-1]
                 fp = lambda t: p_(T.tz(t)) if not callable(getattr(p_, "__call__", None)) or True else p_(t)
@@ -96,7 +96,7 @@ class tt_dimscheck(Contract):
             yield "sdims-in-range-not-excluded", S.forall(
                 0, L, lambda i: S.And(0 <= sdims.fn(i), sdims.fn(i) < Nn, S.forall(0, E, lambda q: ex.fn(q) != sdims.fn(i)))
             )
-            gs = S.ctx.ghosts.get("setdiff1d")
+            gs = S.body_ghosts.get("setdiff1d")
             if gs:
                 _, sdpos, sdslot = gs[-1]
                 yield "every-non-excluded-mode-present(witness slot(v))", S.forall(
@@ -315,6 +315,17 @@ def _distinct_rows(S, A, tag):
     return pos
 
 
+def _rows_requires(S, a):
+    A, B = a["MatrixA"], a["MatrixB"]
+    yield "operands-are-matrices", A.ndim == 2 and B.ndim == 2
+    if A.ndim == 2 and B.ndim == 2:
+        yield "same-nonzero-column-count", S.And(S.eq(A.shape[1], B.shape[1]), S.ge(A.shape[1], 1))
+        ra = N.ensure_rows(S.ctx, A)
+        N.ensure_rows(S.ctx, B)
+        i, j = z3.Int("rq!i"), z3.Int("rq!j")
+        yield "rows-of-first-argument-pairwise-distinct", T.ForAll([i, j], z3.Implies(z3.And(0 <= i, i < j, T.tz(j < A.shape[0])), ra(i) != ra(j)))
+
+
 @register
 class tt_intersect_rows(Contract):
     qual = "pyttb.pyttb_utils.tt_intersect_rows"
@@ -334,17 +345,37 @@ class tt_intersect_rows(Contract):
         posA = _distinct_rows(S, A, "A")
         return dict(MatrixA=A, MatrixB=B, __posA__=posA)
 
+    def requires(self, S, a):
+        yield from _rows_requires(S, a)
+
+    def fresh_result(self, S, a):
+        L = S.nat("L")
+        r = Arr.fresh("common", (L,), "int")
+        r.ghost["where"] = T.fresh_fun("where", z3.IntSort(), z3.IntSort())
+        r.ghost["bw"] = T.fresh_fun("bwit", z3.IntSort(), z3.IntSort())
+        return r
+
     def ensures(self, S, a, ret):
         A, B = a["MatrixA"], a["MatrixB"]
         n, m = A.shape[0], B.shape[0]
-        ra, rb = A.rowfn, B.rowfn
+        ra, rb = N.ensure_rows(S.ctx, A), N.ensure_rows(S.ctx, B)
         yield "vector", ret.ndim == 1
         L = ret.shape[0]
         t, u, i, j = z3.Int("t!x"), z3.Int("u!x"), z3.Int("i!x"), z3.Int("j!x")
+        if S.at_call_site:
+            where, bw = ret.ghost["where"], ret.ghost["bw"]
+            rt = lambda t_: T.tz(ret.fn(t_))
+            yield "positions-of-common-rows", T.ForAll(
+                [t], z3.Implies(z3.And(0 <= t, T.tz(t < L)), z3.And(0 <= rt(t), T.tz(rt(t) < n), 0 <= bw(t), T.tz(bw(t) < m), rb(bw(t)) == ra(rt(t)), where(rt(t)) == t)), [ret.fn(t)])
+            yield "every-common-row-listed", T.ForAll(
+                [i, j], z3.Implies(z3.And(0 <= i, T.tz(i < n), 0 <= j, T.tz(j < m), ra(i) == rb(j)), z3.And(0 <= where(i), T.tz(where(i) < L), rt(where(i)) == i)), [[ra(i), rb(j)]])
+            ret.in_range_of = n
+            ret.distinct = True
+            return
         yield "positions-of-common-rows", T.ForAll(
             [t], z3.Implies(z3.And(0 <= t, T.tz(t < L)), z3.And(0 <= T.tz(ret.fn(t)), T.tz(ret.fn(t) < n),
                                                           T.Exists([j], z3.And(0 <= j, T.tz(j < m), rb(j) == ra(T.tz(ret.fn(t))))))))
-        g = S.ctx.ghosts
+        g = S.body_ghosts
         if len(g.get("unique", [])) == 2 and len(g.get("argsort", [])) == 2 and g.get("select") and g.get("call:tt_ismember_rows"):
             # Proof by explicit witnesses.  Row j of B is unique row invB(j), which sits at position
             # s(j) = pinvB(invB(j)) of the first-occurrence ordering B' that is searched; A' = A because
@@ -390,14 +421,37 @@ class tt_setdiff_rows(Contract):
         posA = _distinct_rows(S, A, "A")
         return dict(MatrixA=A, MatrixB=B, __posA__=posA)
 
+    def requires(self, S, a):
+        yield from _rows_requires(S, a)
+
+    def fresh_result(self, S, a):
+        L = S.nat("L")
+        r = Arr.fresh("absent", (L,), "int")
+        r.ghost["where"] = T.fresh_fun("where", z3.IntSort(), z3.IntSort())
+        return r
+
     def ensures(self, S, a, ret):
         A, B = a["MatrixA"], a["MatrixB"]
         n, m = A.shape[0], B.shape[0]
-        ra, rb = A.rowfn, B.rowfn
+        ra, rb = N.ensure_rows(S.ctx, A), N.ensure_rows(S.ctx, B)
         yield "vector", ret.ndim == 1
         L = ret.shape[0]
         t, u, i, j = z3.Int("t!x"), z3.Int("u!x"), z3.Int("i!x"), z3.Int("j!x")
-        g = S.ctx.ghosts
+        if S.at_call_site:
+            where = ret.ghost["where"]
+            rt = lambda t_: T.tz(ret.fn(t_))
+            yield "strictly-ascending", T.ForAll([t, u], z3.Implies(z3.And(0 <= t, t < u, T.tz(u < L)), rt(t) < rt(u)), [[ret.fn(t), ret.fn(u)]])
+            yield "positions-of-rows-absent-from-B", T.ForAll(
+                [t], z3.Implies(z3.And(0 <= t, T.tz(t < L)), z3.And(0 <= rt(t), T.tz(rt(t) < n), where(rt(t)) == t,
+                                                              T.ForAll([j], z3.Implies(z3.And(0 <= j, T.tz(j < m)), rb(j) != ra(rt(t))), [rb(j)]))), [ret.fn(t)])
+            yield "every-absent-row-listed", T.ForAll(
+                [i], z3.Implies(z3.And(0 <= i, T.tz(i < n), T.ForAll([j], z3.Implies(z3.And(0 <= j, T.tz(j < m)), rb(j) != ra(i)), [rb(j)])),
+                                z3.And(0 <= where(i), T.tz(where(i) < L), rt(where(i)) == i)), [ra(i)])
+            ret.in_range_of = n
+            ret.distinct = True
+            ret.sorted_strict = True
+            return
+        g = S.body_ghosts
         full = len(g.get("unique", [])) == 2 and len(g.get("argsort", [])) == 2 and g.get("select") and g.get("call:tt_ismember_rows") and g.get("setdiff1d")
         if full:
             (mA, idxA, invA), (mB, idxB, invB) = g["unique"]
